@@ -6,15 +6,24 @@
 //                           double, every operator variant): the set of result class pairs observed over
 //                           all representatives, their number and a checksum of the result bit patterns
 //   driver extreme          cases {"t","q","u","n","m","k"} on stdin: evaluates (n * 2^m) / (u * 2^k) and
-//                           prints both quotient parts as sign / exponent / mantissa limbs
+//                           prints both quotient parts as sign / exponent / mantissa limbs (variants vv vc rc; for a real
+//                           dividend also scalar / complex: sv sk; for a real divisor also complex / scalar: vs vsc)
 //   driver detail <float|double> <form> <a> <b> <c> <d> <seed>
 //                           every representative of one class combination with the concrete results
+//   driver exact            cases of specs/ComplexExact.tla on stdin ({"t","b","f","x","m","y","k","st"}): evaluates
+//                           (x * 2^m) (op) (y * 2^k) in every operator variant (also mixed ieee flags and every scalar
+//                           C++ type) and prints both parts of every result as sign / exponent / mantissa limbs
+//   driver fn               cases of specs/ComplexFn.tla on stdin ({"t","b","fn","x","y"}): evaluates the function on
+//                           value / T& / const T& closures and the same function of <complex> on std::complex<T>
 //
 // Classes of a component: nan pinf ninf pz nz pfin nfin.  Representatives of a finite class: 1, 2.5, a
 // tiny normal, a huge normal and two seeded values from anywhere in the normal exponent range.
 // Operator variants:  vv  value (op) value             vc  value (op)= value
 //                     rk  T& closure (op) const T& closure     rc  T& closure (op)= value  (read the referents)
 //                     kv  const T& closure (op) value
+//                     vw  value<ieee> (op) value<!ieee>        wv  value<!ieee> (op) value<ieee>   (mixed flags)
+// -DDRV_PART=1 builds only the Annex G modes (classes, extreme, detail), -DDRV_PART=2 only exact, -DDRV_PART=3 only fn (parallel
+// compilation); without it everything is in one binary.
 #include <xtl/xcomplex.hpp>
 #include "vjson.hpp"
 #include <iostream>
@@ -24,9 +33,15 @@
 #include <set>
 #include <cstring>
 
+#ifndef DRV_PART
+#define DRV_PART 0
+#endif
+#define PART(n) (DRV_PART == 0 || DRV_PART == (n))
+
 static const char* CN[7] = {"nan", "pinf", "ninf", "pz", "nz", "pfin", "nfin"};
 static const char* FORMS[6] = {"mul", "div", "mulr", "rmul", "divr", "rdiv"};
-static const char* VARS[5] = {"vv", "vc", "rk", "rc", "kv"};
+static const char* VARS[7] = {"vv", "vc", "rk", "rc", "kv", "vw", "wv"};
+static const int NV = 7;
 
 template <class T> static int cls(T x)
 {
@@ -87,6 +102,7 @@ static unsigned long long mix(unsigned long long h, unsigned long long v)
     return h * 0xff51afd7ed558ccdull;
 }
 
+#if PART(1)
 template <class T> struct acc
 {
     unsigned long long seen = 0;      // bit (zr * 7 + zi)
@@ -121,15 +137,17 @@ struct evaluator
     using V = xtl::xcomplex<T, T, true>;
     using R = xtl::xcomplex<T&, T&, true>;
     using K = xtl::xcomplex<const T&, const T&, true>;
+    using W = xtl::xcomplex<T, T, false>;     // the other flag: a mixed pair is evaluated with ieee1 || ieee2
 
     // every operator variant of one form on concrete operands; out[v] = (re, im), have[v]
-    static void eval(int form, T a, T b, T c, T d, T (&re)[5], T (&im)[5], bool (&have)[5])
+    static void eval(int form, T a, T b, T c, T d, T (&re)[NV], T (&im)[NV], bool (&have)[NV])
     {
-        for (int v = 0; v < 5; ++v) have[v] = false;
+        for (int v = 0; v < NV; ++v) have[v] = false;
         auto put = [&](int v, T x, T y) { re[v] = x; im[v] = y; have[v] = true; };
         T a1 = a, b1 = b, c1 = c, d1 = d;      // referents of the closures
         R rx(a1, b1); K kx(a1, b1); K ky(c1, d1);
         V vx(a, b), vy(c, d);
+        W wx(a, b), wy(c, d);
         const T s = c;                          // the real operand of the mixed forms
         switch (form)
         {
@@ -139,6 +157,8 @@ struct evaluator
             { auto z = rx * ky; put(2, z.real(), z.imag()); }
             { auto z = kx * vy; put(4, z.real(), z.imag()); }
             { rx *= vy; put(3, a1, b1); }
+            { auto z = vx * wy; put(5, z.real(), z.imag()); }
+            { auto z = wx * vy; put(6, z.real(), z.imag()); }
             break;
         case 1:
             { auto z = vx / vy; put(0, z.real(), z.imag()); }
@@ -146,6 +166,8 @@ struct evaluator
             { auto z = rx / ky; put(2, z.real(), z.imag()); }
             { auto z = kx / vy; put(4, z.real(), z.imag()); }
             { rx /= vy; put(3, a1, b1); }
+            { auto z = vx / wy; put(5, z.real(), z.imag()); }
+            { auto z = wx / vy; put(6, z.real(), z.imag()); }
             break;
         case 2:
             { auto z = vx * s; put(0, z.real(), z.imag()); }
@@ -177,7 +199,7 @@ struct evaluator
     // one table cell: all representatives of the class combination (a,b | c,d); mixed forms ignore d
     static std::string cell(int form, int a, int b, int c, int d, const std::vector<T>& F, bool detail)
     {
-        acc<T> A[5];
+        acc<T> A[NV];
         const int nf = int(F.size());
         const bool mixed = form >= 2;
         auto cnt = [&](int k) { return k >= 5 ? nf : 1; };
@@ -185,19 +207,19 @@ struct evaluator
         for (int k = 0; k < cnt(c); ++k) for (int l = 0; l < (mixed ? 1 : cnt(d)); ++l)
         {
             T x0 = make<T>(a, F[i]), x1 = make<T>(b, F[j]), y0 = make<T>(c, F[k]), y1 = mixed ? T(0) : make<T>(d, F[l]);
-            T re[5], im[5]; bool have[5];
+            T re[NV], im[NV]; bool have[NV];
             eval(form, x0, x1, y0, y1, re, im, have);
-            for (int v = 0; v < 5; ++v) if (have[v]) A[v].add(re[v], im[v]);
+            for (int v = 0; v < NV; ++v) if (have[v]) A[v].add(re[v], im[v]);
             if (detail)
             {
                 std::printf("  x=(%.17g,%.17g) y=(%.17g,%.17g)", (double)x0, (double)x1, (double)y0, (double)y1);
-                for (int v = 0; v < 5; ++v) if (have[v]) std::printf("  %s=(%.17g,%.17g)[%s,%s]", VARS[v], (double)re[v], (double)im[v], CN[cls(re[v])], CN[cls(im[v])]);
+                for (int v = 0; v < NV; ++v) if (have[v]) std::printf("  %s=(%.17g,%.17g)[%s,%s]", VARS[v], (double)re[v], (double)im[v], CN[cls(re[v])], CN[cls(im[v])]);
                 std::printf("\n");
             }
         }
         std::string o = "{";
         bool first = true;
-        for (int v = 0; v < 5; ++v)
+        for (int v = 0; v < NV; ++v)
             if (A[v].n)
             {
                 if (!first) o += ',';
@@ -241,6 +263,7 @@ static int classes(unsigned long long seed)
     return 0;
 }
 
+#endif
 // ---------------------------------------------------------------- extreme divisors
 template <class T> static std::string fp(T x)
 {
@@ -257,6 +280,7 @@ template <class T> static std::string fp(T x)
            std::to_string((F >> 16) & 0xffff) + "," + std::to_string(F & 0xffff) + "]}";
 }
 
+#if PART(1)
 template <class T> static std::string extreme_case(const vj::value& ev)
 {
     using V = xtl::xcomplex<T, T, true>;
@@ -270,8 +294,19 @@ template <class T> static std::string extreme_case(const vj::value& ev)
     V t(x); t /= y;
     T a1 = a, b1 = b; R rx(a1, b1); K ky(c, d);
     rx /= ky;
+    std::string more;
+    if (n[1] == 0)      // a real dividend: the mixed form scalar / complex (value and const T& closure divisor)
+    {
+        auto z1 = a / y; auto z2 = a / ky;
+        more += ",\"sv\":[" + fp(z1.real()) + "," + fp(z1.imag()) + "],\"sk\":[" + fp(z2.real()) + "," + fp(z2.imag()) + "]";
+    }
+    if (u[1] == 0)      // a real divisor: the mixed form complex / scalar (binary and compound)
+    {
+        auto z1 = x / c; V t2(x); t2 /= c;
+        more += ",\"vs\":[" + fp(z1.real()) + "," + fp(z1.imag()) + "],\"vsc\":[" + fp(t2.real()) + "," + fp(t2.imag()) + "]";
+    }
     return "{\"vv\":[" + fp(z.real()) + "," + fp(z.imag()) + "],\"vc\":[" + fp(t.real()) + "," + fp(t.imag()) +
-           "],\"rc\":[" + fp(a1) + "," + fp(b1) + "]}";
+           "],\"rc\":[" + fp(a1) + "," + fp(b1) + "]" + more + "}";
 }
 
 static int extreme()
@@ -287,11 +322,248 @@ static int extreme()
     return 0;
 }
 
+#endif
+#if PART(2) || PART(3)
+// ---------------------------------------------------------------- exact dyadic arithmetic (specs/ComplexExact.tla)
+
+template <class T> static std::string fp2(T re, T im) { return "[" + fp(re) + "," + fp(im) + "]"; }
+
+// results of the operator variants, variants with bit-identical results grouped (compression only):
+//   [{"v":["vv","vc",...],"z":<result>}, ...]
+struct grouped
+{
+    std::vector<std::pair<std::string, std::string>> g;      // (names json list body, result)
+    void put(const char* v, const std::string& r)
+    {
+        for (auto& e : g) if (e.second == r) { e.first += std::string(",\"") + v + "\""; return; }
+        g.push_back({std::string("\"") + v + "\"", r});
+    }
+    std::string json() const
+    {
+        std::string o = "[";
+        for (size_t i = 0; i < g.size(); ++i) o += std::string(i ? "," : "") + "{\"v\":[" + g[i].first + "],\"z\":" + g[i].second + "}";
+        return o + "]";
+    }
+};
+
+#endif
+#if PART(2)
+// the scalar operand y * 2^k as an object of the C++ type named st, handed to f
+template <class T, class F> static void with_scalar(const std::string& st, long long y, int k, F&& f)
+{
+    if (st == "T") { const T s = std::ldexp(T(y), k); f(s); }
+    else if (st == "int") { const int s = int(y * (1LL << k)); f(s); }
+    else if (st == "long") { const long s = long(y * (1LL << k)); f(s); }
+    else if (st == "float") { const float s = std::ldexp(float(y), k); f(s); }
+    else if (st == "double") { const double s = std::ldexp(double(y), k); f(s); }
+    else if (st == "ldouble") { const long double s = std::ldexp((long double)y, k); f(s); }
+    else { std::fprintf(stderr, "unknown scalar type %s\n", st.c_str()); std::exit(3); }
+}
+
+template <class A, class Bt> static auto apply_op(int op, const A& a, const Bt& b)
+{
+    switch (op) { case 0: return a + b; case 1: return a - b; case 2: return a * b; default: return a / b; }
+}
+template <class A, class Bt> static void apply_cmp(int op, A& a, const Bt& b)
+{
+    switch (op) { case 0: a += b; break; case 1: a -= b; break; case 2: a *= b; break; default: a /= b; break; }
+}
+
+template <class T, bool B> static std::string exact_case(const vj::value& ev)
+{
+    using V = xtl::xcomplex<T, T, B>;
+    using W = xtl::xcomplex<T, T, !B>;
+    using R = xtl::xcomplex<T&, T&, B>;
+    using K = xtl::xcomplex<const T&, const T&, B>;
+    const std::string& f = ev.str("f");
+    auto x = ev.ints("x"); auto y = ev.ints("y");
+    const int m = int(ev.num("m")), k = int(ev.num("k"));
+    static const char* OPS[4] = {"add", "sub", "mul", "div"};
+    int op = -1, shape = -1;      // shape 0: complex (op) complex, 1: complex (op) scalar, 2: scalar (op) complex
+    for (int i = 0; i < 4; ++i)
+    {
+        if (f == OPS[i]) { op = i; shape = 0; }
+        if (f == std::string(OPS[i]) + "s") { op = i; shape = 1; }
+        if (f == std::string("s") + OPS[i]) { op = i; shape = 2; }
+    }
+    if (op < 0) { std::fprintf(stderr, "unknown form %s\n", f.c_str()); std::exit(3); }
+    const T a = std::ldexp(T(x[0]), m), b = std::ldexp(T(x[1]), m);
+    T a1 = a, b1 = b;                            // referents of the closures over the xcomplex operand
+    V vx(a, b); W wx(a, b); R rx(a1, b1); K kx(a1, b1);
+    grouped G;
+    auto put = [&G](const char* v, const std::string& r) { G.put(v, r); };
+    if (shape == 0)
+    {
+        const T c = std::ldexp(T(y[0]), k), d = std::ldexp(T(y[1]), k);
+        T c1 = c, d1 = d;
+        V vy(c, d); W wy(c, d); K ky(c1, d1);
+        { auto z = apply_op(op, vx, vy); put("vv", fp2(z.real(), z.imag())); }
+        { V t(vx); apply_cmp(op, t, vy); put("vc", fp2(t.real(), t.imag())); }
+        { auto z = apply_op(op, rx, ky); put("rk", fp2(z.real(), z.imag())); }
+        { auto z = apply_op(op, kx, vy); put("kv", fp2(z.real(), z.imag())); }
+        { auto z = apply_op(op, vx, wy); put("vw", fp2(z.real(), z.imag())); }
+        { auto z = apply_op(op, wx, vy); put("wv", fp2(z.real(), z.imag())); }
+        { W t(wx); apply_cmp(op, t, ky); put("wc", fp2(t.real(), t.imag())); }
+        { apply_cmp(op, rx, vy); put("rc", fp2(a1, b1)); }
+    }
+    else
+    {
+        with_scalar<T>(ev.str("st"), y[0], k, [&](const auto& s) {
+            if (shape == 1)
+            {
+                { auto z = apply_op(op, vx, s); put("vv", fp2(z.real(), z.imag())); }
+                { V t(vx); apply_cmp(op, t, s); put("vc", fp2(t.real(), t.imag())); }
+                { auto z = apply_op(op, rx, s); put("rk", fp2(z.real(), z.imag())); }
+                { auto z = apply_op(op, kx, s); put("kv", fp2(z.real(), z.imag())); }
+                { auto z = apply_op(op, wx, s); put("wv", fp2(z.real(), z.imag())); }
+                { apply_cmp(op, rx, s); put("rc", fp2(a1, b1)); }
+            }
+            else
+            {
+                { auto z = apply_op(op, s, vx); put("vv", fp2(z.real(), z.imag())); }
+                { auto z = apply_op(op, s, rx); put("rk", fp2(z.real(), z.imag())); }
+                { auto z = apply_op(op, s, kx); put("kv", fp2(z.real(), z.imag())); }
+                { auto z = apply_op(op, s, wx); put("wv", fp2(z.real(), z.imag())); }
+            }
+        });
+    }
+    return G.json();
+}
+
+#endif
+#if PART(2) || PART(3)
+template <class F> static int table_mode(F&& row)
+{
+    std::string line;
+    while (std::getline(std::cin, line))
+    {
+        if (line.empty()) continue;
+        vj::value ev = vj::parse(line);
+        std::string r = row(ev);
+        std::string out = line.substr(0, line.rfind('}')) + r + "}\n";
+        std::fwrite(out.data(), 1, out.size(), stdout);      // C stdio: the crash handlers fflush(stdout)
+    }
+    std::fflush(stdout);
+    return 0;
+}
+
+#endif
+#if PART(2)
+static std::string exact_row(const vj::value& ev)
+{
+    const std::string& t = ev.str("t");
+    const bool b = ev.at("b").b;
+    std::string r;
+    if (t == "float") r = b ? exact_case<float, true>(ev) : exact_case<float, false>(ev);
+    else if (t == "double") r = b ? exact_case<double, true>(ev) : exact_case<double, false>(ev);
+    else if (t == "ldouble") r = b ? exact_case<long double, true>(ev) : exact_case<long double, false>(ev);
+    else { std::fprintf(stderr, "unknown type %s\n", t.c_str()); std::exit(3); }
+    return ",\"r\":" + r;
+}
+
+#endif
+#if PART(3)
+// ---------------------------------------------------------------- functions equal to std::complex's (specs/ComplexFn.tla)
+template <class T> static T comp_of(const vj::value& d)
+{
+    const std::string& k = d.str("k");
+    const long long n = d.num("n");
+    if (k == "nan") return std::numeric_limits<T>::quiet_NaN();
+    if (k == "inf") return n ? -std::numeric_limits<T>::infinity() : std::numeric_limits<T>::infinity();
+    if (k == "zero") return n ? -T(0) : T(0);
+    return std::ldexp(T(n), int(d.num("e")));
+}
+template <class T> static std::string res_c(const std::complex<T>& z) { return "[" + fp(z.real()) + "," + fp(z.imag()) + "]"; }
+template <class T> static std::string res_r(T x) { return "[" + fp(x) + "]"; }
+static std::string res_b(bool b) { return b ? "[true]" : "[false]"; }
+
+// the call on an xcomplex of closure kind X (x) with second operand y / scalar sc / integer n
+template <class T, class X, class Y> static std::string fn_xtl(const std::string& fn, const X& x, const Y& y, T sc, int n)
+{
+    using S = std::complex<T>;
+#define FN_C(name) if (fn == #name) return res_c<T>(S(name(x)));
+#define FN_R(name) if (fn == #name) return res_r<T>(name(x));
+    FN_C(conj) FN_C(proj) FN_C(exp) FN_C(log) FN_C(log10) FN_C(sqrt) FN_C(sin) FN_C(cos) FN_C(tan) FN_C(asin) FN_C(acos) FN_C(atan)
+    FN_C(sinh) FN_C(cosh) FN_C(tanh) FN_C(asinh) FN_C(acosh) FN_C(atanh)
+    FN_R(abs) FN_R(arg) FN_R(norm)
+#undef FN_C
+#undef FN_R
+    if (fn == "neg") return res_c<T>(S(-x));
+    if (fn == "pos") return res_c<T>(S(+x));
+    if (fn == "real") return res_r<T>(x.real());
+    if (fn == "imag") return res_r<T>(xtl::imag(x));
+    if (fn == "rreal") { X t(x); return res_r<T>(xtl::real(std::move(t))); }
+    if (fn == "rimag") { X t(x); return res_r<T>(std::move(t).imag()); }
+    if (fn == "eq") return res_b(x == y);
+    if (fn == "ne") return res_b(x != y);
+    if (fn == "pow_cc") return res_c<T>(S(pow(x, y)));
+    if (fn == "pow_cs") return res_c<T>(S(pow(x, sc)));
+    if (fn == "pow_sc") return res_c<T>(S(pow(sc, x)));
+    if (fn == "pow_ci") return res_c<T>(S(pow(x, n)));
+    std::fprintf(stderr, "unknown function %s\n", fn.c_str());
+    std::exit(3);
+}
+template <class T> static std::string fn_std(const std::string& fn, const std::complex<T>& x, const std::complex<T>& y, T sc, int n)
+{
+#define FN_C(name) if (fn == #name) return res_c<T>(std::name(x));
+#define FN_R(name) if (fn == #name) return res_r<T>(std::name(x));
+    FN_C(conj) FN_C(proj) FN_C(exp) FN_C(log) FN_C(log10) FN_C(sqrt) FN_C(sin) FN_C(cos) FN_C(tan) FN_C(asin) FN_C(acos) FN_C(atan)
+    FN_C(sinh) FN_C(cosh) FN_C(tanh) FN_C(asinh) FN_C(acosh) FN_C(atanh)
+    FN_R(abs) FN_R(arg) FN_R(norm)
+#undef FN_C
+#undef FN_R
+    if (fn == "neg") return res_c<T>(-x);
+    if (fn == "pos") return res_c<T>(+x);
+    if (fn == "real" || fn == "rreal") return res_r<T>(x.real());
+    if (fn == "imag" || fn == "rimag") return res_r<T>(x.imag());
+    if (fn == "eq") return res_b(x == y);
+    if (fn == "ne") return res_b(x != y);
+    if (fn == "pow_cc") return res_c<T>(std::pow(x, y));
+    if (fn == "pow_cs") return res_c<T>(std::pow(x, sc));
+    if (fn == "pow_sc") return res_c<T>(std::pow(sc, x));
+    if (fn == "pow_ci") return res_c<T>(std::pow(x, n));
+    std::fprintf(stderr, "unknown function %s\n", fn.c_str());
+    std::exit(3);
+}
+
+template <class T, bool B> static std::string fn_case(const vj::value& ev)
+{
+    using V = xtl::xcomplex<T, T, B>;
+    using R = xtl::xcomplex<T&, T&, B>;
+    using K = xtl::xcomplex<const T&, const T&, B>;
+    const std::string& fn = ev.str("fn");
+    const T a = comp_of<T>(ev.at("x").a[0]), b = comp_of<T>(ev.at("x").a[1]);
+    const T c = comp_of<T>(ev.at("y").a[0]), d = comp_of<T>(ev.at("y").a[1]);
+    T a1 = a, b1 = b, a2 = a, b2 = b, c1 = c, d1 = d, c2 = c, d2 = d;
+    const V vx(a, b), vy(c, d); const R rx(a1, b1), ry(c1, d1); const K kx(a2, b2), ky(c2, d2);
+    const int n = (c == c && std::fabs(c) < T(1000)) ? int(c) : 0;
+    grouped G;
+    G.put("val", fn_xtl<T>(fn, vx, ky, c, n)); G.put("ref", fn_xtl<T>(fn, rx, vy, c, n)); G.put("cref", fn_xtl<T>(fn, kx, ry, c, n));
+    return ",\"r\":" + G.json() + ",\"std\":" + fn_std<T>(fn, std::complex<T>(a, b), std::complex<T>(c, d), c, n);
+}
+static std::string fn_row(const vj::value& ev)
+{
+    const std::string& t = ev.str("t");
+    const bool b = ev.at("b").b;
+    if (t == "float") return b ? fn_case<float, true>(ev) : fn_case<float, false>(ev);
+    if (t == "double") return b ? fn_case<double, true>(ev) : fn_case<double, false>(ev);
+    if (t == "ldouble") return b ? fn_case<long double, true>(ev) : fn_case<long double, false>(ev);
+    std::fprintf(stderr, "unknown type %s\n", t.c_str());
+    std::exit(3);
+}
+#endif
+
 int main(int argc, char** argv)
 {
     vj::install_crash_handlers();
-    std::ios::sync_with_stdio(false);
     std::string mode = argc > 1 ? argv[1] : "";
+#if PART(2)
+    if (mode == "exact") return table_mode(exact_row);
+#endif
+#if PART(3)
+    if (mode == "fn") return table_mode(fn_row);
+#endif
+#if PART(1)
     if (mode == "classes" && argc >= 3) return classes(std::strtoull(argv[2], nullptr, 10));
     if (mode == "extreme") return extreme();
     if (mode == "detail" && argc >= 9)
@@ -306,6 +578,7 @@ int main(int argc, char** argv)
         else evaluator<double>::cell(fi, a, b, c, d, reps<double>(seed), true);
         return 0;
     }
+#endif
     std::fprintf(stderr, "usage: driver classes <seed> | extreme | detail <float|double> <form> a b c d <seed>\n");
     return 3;
 }
